@@ -329,8 +329,31 @@ async def _main(ctx, only=None):
     ctx.exhaustive_parts["all single and double cuts of every stream < 130 bytes"] = True
 
 
+# the parser as the real connection drives it: the caller of a request is resumed BETWEEN reads, so bytes of the next message
+# that arrived with the end of its response must survive that (the scenario machinery and its oracles are C08's)
+REQUEST_LEVEL_SCHEDULES = ["RG", "RGRG", "RRGGE", "RGFRG", "RGGG", "RRAGG"]
+
+
+async def run_request_level(ctx) -> None:
+    from vf.props import c08
+
+    n = 0
+    for k in range(ctx.pick(6, 40)):
+        for schedule in REQUEST_LEVEL_SCHEDULES:
+            n += 1
+            if not ctx.mine(n):
+                continue
+            api = ("connection", "pairing", "pipelined")[n % 3]
+            ctx.case("request-level", schedule, api, k, sample={"part": "request-level", "schedule": schedule, "api": api}, kind="request-level")
+            await c08.Scenario(ctx, schedule, api, ("C07", k, schedule)).run()
+            ctx.count("request_level_schedules")
+
+
 def run(ctx) -> None:
     asyncio.run(_main(ctx))
+    from vf import vloop
+
+    vloop.run(run_request_level(ctx))
 
 
 def replay(ctx, d) -> None:
